@@ -787,6 +787,10 @@ class ResourceProvider(object):
         new_root_uuid = None
         if 'parent_provider_uuid' in updates:
             my_ids = res_ctx.provider_ids_from_uuid(context, self.uuid)
+            if my_ids is None:
+                # Another request deleted the provider after it was loaded.
+                raise exception.NotFound(
+                    'No resource provider with uuid %s found' % self.uuid)
             parent_uuid = updates.pop('parent_provider_uuid')
             if parent_uuid is not None:
                 parent_ids = res_ctx.provider_ids_from_uuid(
